@@ -1281,6 +1281,94 @@ func init() {
 	}
 }
 
+// sort.Slice(x, less) / sort.SliceStable: the slice variable x afterwards holds a bijective rearrangement of its old
+// content in which less(b, a) is false for all positions a < b (the `less` literal is evaluated on the new content).
+func modelSortSlice(f *Frame, st *State, e *ast.CallExpr, recv *Term, args []*Term, sig *types.Signature) []*Term {
+	c := f.c
+	fl, ok := unparen(e.Args[1]).(*ast.FuncLit)
+	if !ok {
+		f.fail(e, "sort.Slice: less must be a function literal")
+	}
+	s := f.expr(st, e.Args[0])
+	sl := c.slices[s.Sort]
+	if sl == nil {
+		f.fail(e, "sort.Slice on non-slice")
+	}
+	n := c.define(c.sliceLen(s), "sortn")
+	oldArr := c.define(c.sliceArr(s), "sortold")
+	newArr := c.fresh("sorted", ArrSort(SInt, sl.Elem))
+	c.nfresh++
+	id := c.nfresh
+	pi := c.declareFun(fmt.Sprintf("sortPi!%d", id), []Sort{SInt}, SInt)
+	inv := c.declareFun(fmt.Sprintf("sortInv!%d", id), []Sort{SInt}, SInt)
+	i := c.bvar("i", SInt)
+	pii := App(pi, SInt, i)
+	c.assume(st, Forall([]*Term{i}, Implies(And(Ge(i, IntLit(0)), Lt(i, n)),
+		And(Ge(pii, IntLit(0)), Lt(pii, n), Eq(App(inv, SInt, pii), i), Eq(Select(newArr, i), Select(oldArr, pii)))), Select(newArr, i)))
+	j := c.bvar("j", SInt)
+	invj := App(inv, SInt, j)
+	c.assume(st, Forall([]*Term{j}, Implies(And(Ge(j, IntLit(0)), Lt(j, n)),
+		And(Ge(invj, IntLit(0)), Lt(invj, n), Eq(App(pi, SInt, invj), j), Eq(Select(newArr, invj), Select(oldArr, j)))), Select(oldArr, j)))
+	ns := c.mkSlice(s.Sort, n, newArr)
+	f.store(st, f.lvalue(st, e.Args[0]), ns)
+	a := c.bvar("a", SInt)
+	b := c.bvar("b", SInt)
+	w := st.clone()
+	w.pc = TTrue
+	c.inQuant++
+	rs := f.inlineClosure(w, &Closure{Lit: fl, Info: f.info}, []*Term{b, a}, e)
+	c.inQuant--
+	c.assume(st, Forall([]*Term{a, b}, Implies(And(Ge(a, IntLit(0)), Lt(a, b), Lt(b, n)), Not(rs[0]))))
+	c.note("sort.Slice: trusted in-place sort contract (bijective rearrangement, ordered by the less literal)")
+	return nil
+}
+
+func init() {
+	models["sort.Slice"] = modelSortSlice
+	models["sort.SliceStable"] = modelSortSlice
+}
+
+// sortedParams: the slice-typed parameters (receiver included) of fi that its body hands to sort.Slice / sort.SliceStable
+// directly and never assigns as a whole. Slices have value semantics in this model; for these parameters the in-place
+// effect is written back to the caller's argument expression after the call is inlined.
+func sortedParams(fi *FuncInfo) map[types.Object]bool {
+	info := fi.Pkg.TypesInfo
+	out := map[types.Object]bool{}
+	if fi.Decl.Body == nil {
+		return out
+	}
+	assigned := map[types.Object]bool{}
+	ast.Inspect(fi.Decl.Body, func(n ast.Node) bool {
+		switch x := n.(type) {
+		case *ast.AssignStmt:
+			for _, l := range x.Lhs {
+				if id, ok := unparen(l).(*ast.Ident); ok {
+					if o := info.Uses[id]; o != nil {
+						assigned[o] = true
+					}
+				}
+			}
+		case *ast.CallExpr:
+			if sel, ok := unparen(x.Fun).(*ast.SelectorExpr); ok && len(x.Args) == 2 {
+				if fn, ok := info.Uses[sel.Sel].(*types.Func); ok && fn.Pkg() != nil && fn.Pkg().Path() == "sort" && (fn.Name() == "Slice" || fn.Name() == "SliceStable") {
+					if id, ok := unparen(x.Args[0]).(*ast.Ident); ok {
+						if o, ok := info.Uses[id].(*types.Var); ok {
+							out[o] = true
+						}
+					}
+				}
+			}
+		}
+		return true
+	})
+	for o := range out {
+		if assigned[o] {
+			delete(out, o)
+		}
+	}
+	return out
+}
+
 // ---------------------------------------------------------------- streams used by the snapshot archive (trusted)
 // archive/tar reader: the members of the archive read from `in` are a ghost sequence (tarCount(in), tarName(in,j));
 // Next() yields them in order, then io.EOF; it may instead fail with another error at any point (truncation).
@@ -1323,6 +1411,14 @@ func init() {
 		otherErr := f.someError()
 		c.assume(st, Ne(otherErr, eof))
 		return []*Term{Ite(ok, hdr, IntLit(0)), Ite(ok, IfaceNil, Ite(broken, otherErr, eof))}
+	}
+	// io.ReadAll(r): the rest of the stream behind r is a ghost pair (restBytes(r), restErr(r)); on error the data read so far is unspecified
+	models["io.ReadAll"] = func(f *Frame, st *State, e *ast.CallExpr, recv *Term, args []*Term, sig *types.Signature) []*Term {
+		c := f.c
+		r := args[0]
+		data := App(c.ufun("restBytes", []Sort{SIfc}, SByt), SByt, r)
+		er := App(c.ufun("restErr", []Sort{SIfc}, SIfc), SIfc, r)
+		return []*Term{Ite(Eq(er, IfaceNil), data, c.fresh("partial", SByt)), er}
 	}
 	models["bufio.NewScanner"] = func(f *Frame, st *State, e *ast.CallExpr, recv *Term, args []*Term, sig *types.Signature) []*Term {
 		c := f.c
